@@ -43,7 +43,10 @@ func dial(ctx context.Context) (*websocket.Conn, error) {
 	case "ws", "wss":
 		header := http.Header{"Sec-WebSocket-Protocol": []string{"hprose"}}
 		// the handshake honours the deadline of ctx only: close the connection
-		// when ctx is cancelled before the handshake is over.
+		// when ctx is cancelled before the handshake is over (and only then: ctx
+		// usually ends soon after, when the call that dialled returns).
+		var lock sync.Mutex
+		finished := false
 		done := make(chan struct{})
 		defer close(done)
 		d.NetDialContext = func(ctx context.Context, network, addr string) (net.Conn, error) {
@@ -52,9 +55,13 @@ func dial(ctx context.Context) (*websocket.Conn, error) {
 			if err == nil {
 				go func() {
 					select {
-					case <-ctx.Done():
-						_ = c.Close()
 					case <-done:
+					case <-ctx.Done():
+						lock.Lock()
+						if !finished {
+							_ = c.Close()
+						}
+						lock.Unlock()
 					}
 				}()
 			}
@@ -63,6 +70,14 @@ func dial(ctx context.Context) (*websocket.Conn, error) {
 		conn, response, err := d.DialContext(ctx, u.String(), header)
 		if response != nil {
 			response.Body.Close()
+		}
+		lock.Lock()
+		finished = true
+		cancelled := ctx.Err()
+		lock.Unlock()
+		if cancelled != nil && err == nil {
+			_ = conn.Close()
+			return nil, cancelled
 		}
 		return conn, err
 	}
